@@ -40,7 +40,7 @@ ASSUMPTIONS = ["the reference is a second execution of the real code on a fresh 
                "leaks after an injected stop are counted, not flagged"]
 REACH_PROBES = ["fault_fired:abort", "fault_fired:alloc", "fault_fired:input", "fault_fired:eio", "fault_fired:load", "abort_inside:transport", "abort_inside:kinetics",
                 "abort_inside:inverse", "abort_inside:reading", "history_nontrivial", "probe_compared"]
-tiers = {"quick": dict(runs=400, budget_s=150, workers=16), "thorough": dict(runs=12000, budget_s=1700, workers=16)}
+tiers = {"quick": dict(runs=920, budget_s=240, workers=16), "thorough": dict(runs=14000, budget_s=1700, workers=16)}
 
 DBS = {"phreeqc": PHREEQC_DAT, "pitzer": os.path.join(DBDIR, "pitzer.dat"), "sit": os.path.join(DBDIR, "sit.dat"),
        "wateq4f": os.path.join(DBDIR, "wateq4f.dat"), "iso": os.path.join(DBDIR, "iso.dat"), "ex15": os.path.join(EXDIR, "ex15.dat")}
@@ -185,14 +185,23 @@ def gen_setters(rng, n):
 ENUM_INPUTS = [("w_spec", "abort"), ("w_react", "abort"), ("h_selout", "abort"), ("w_calcval", "abort"), ("w_gas_ss", "abort"), ("h_title_copy", "abort"),
                ("w_kin_rk", "alloc"), ("w_basic", "alloc"), ("w_adv", "alloc"), ("w_kin_cvode", "abort"), ("w_kin_cvode", "alloc"), ("w_trans", "abort"), ("w_inverse", "abort")]
 ENUM_SPAN = 520
+QUICK_STRATA = 40
 
 
 def generate(rng, tier, index):
     plan = generate_random(rng, tier, index)
+    enum = None
     if tier == "thorough" and index < len(ENUM_INPUTS) * ENUM_SPAN:
         # exhaustive part: every crash index of a short run (every message / every allocation), one per plan
-        name, kind = ENUM_INPUTS[index // ENUM_SPAN]
-        plan["fault"] = {"kind": kind, "input": name, "cls": "any", "frac": 0.0, "k_abs": index % ENUM_SPAN + 1}
+        enum = (ENUM_INPUTS[index // ENUM_SPAN], index % ENUM_SPAN + 1)
+    elif tier == "quick" and index < len(ENUM_INPUTS) * QUICK_STRATA:
+        # stratified part: the same crash-index ranges cut into strata of ENUM_SPAN / QUICK_STRATA consecutive indices, one seeded
+        # sample per stratum, so that any window of that many consecutive crash points is hit at least once per quick run
+        w = ENUM_SPAN // QUICK_STRATA
+        enum = (ENUM_INPUTS[index // QUICK_STRATA], (index % QUICK_STRATA) * w + rng.below(w) + 1)
+    if enum:
+        (name, kind), k_abs = enum
+        plan["fault"] = {"kind": kind, "input": name, "cls": "any", "frac": 0.0, "k_abs": k_abs}
         if not plan["segments"]:
             plan["segments"].append({"db": "phreeqc", "dbstring": False, "setters": [], "inputs": [], "entries": []})
         for sg in plan["segments"]:
